@@ -5,8 +5,11 @@ import (
 	"errors"
 	"flag"
 	"fmt"
+	"runtime"
 	"sort"
 	"strings"
+	"sync"
+	"sync/atomic"
 
 	openfgav1 "github.com/openfga/api/proto/openfga/v1"
 	"github.com/openfga/language/pkg/go/transformer"
@@ -179,10 +182,11 @@ func mergeReplay(args []string) error {
 		return err
 	}
 	defer w.close()
-	return readNDJSON(*in, func(line []byte) error {
+	// file sets are independent: they are merged on all cores, results are written in input order
+	return parallelNDJSON(*in, w, func(line []byte) (any, error) {
 		var inp mgInput
 		if err := json.Unmarshal(line, &inp); err != nil {
-			return err
+			return nil, err
 		}
 		obs := &mgObs{ID: inp.ID, Outcomes: []*mgOutcome{}}
 		n := *runs
@@ -229,6 +233,44 @@ func mergeReplay(args []string) error {
 				obs.Runs += *permRuns
 			}
 		}
-		return w.write(obs)
+		return obs, nil
 	})
+}
+
+// parallelNDJSON applies fn to every line of the input on all cores and writes the results in input order.
+func parallelNDJSON(in string, w *ndWriter, fn func(line []byte) (any, error)) error {
+	var lines [][]byte
+	if err := readNDJSON(in, func(line []byte) error {
+		lines = append(lines, append([]byte{}, line...))
+		return nil
+	}); err != nil {
+		return err
+	}
+	results := make([]any, len(lines))
+	errs := make([]error, len(lines))
+	var wg sync.WaitGroup
+	next := int64(-1)
+	for k := 0; k < runtime.NumCPU(); k++ {
+		wg.Add(1)
+		go func() {
+			defer wg.Done()
+			for {
+				i := int(atomic.AddInt64(&next, 1))
+				if i >= len(lines) {
+					return
+				}
+				results[i], errs[i] = fn(lines[i])
+			}
+		}()
+	}
+	wg.Wait()
+	for i := range lines {
+		if errs[i] != nil {
+			return errs[i]
+		}
+		if err := w.write(results[i]); err != nil {
+			return err
+		}
+	}
+	return nil
 }
